@@ -4,6 +4,7 @@
 package main
 
 import (
+	"runtime/debug"
 	"encoding/json"
 	"flag"
 	"fmt"
@@ -83,7 +84,9 @@ func main() {
 	c := &ctx{Run: run, M: m, R: zh.NewRng(*seed), Quick: *tier != "thorough", Known: kf, Replay: *replay}
 	// a broken proof obligation is reported whether or not a failing input is found
 	defer zh.CleanTmp()
+	curCtx = c
 	f(c)
+	curCtx = nil
 	reportRaces(c)
 	reportProof(c)
 	m.Close()
@@ -180,7 +183,8 @@ func (c *ctx) n(quick, thorough int) int {
 	return thorough
 }
 
-func must(err error) {
+// mustH: an error of the harness itself or of the extracted model (exit 2).
+func mustH(err error) {
 	if err != nil {
 		fmt.Fprintln(os.Stderr, "harness error:", err)
 		zh.CleanTmp()
@@ -188,8 +192,32 @@ func must(err error) {
 	}
 }
 
+// curCtx is the running check (nil while the harness itself starts up).
+var curCtx *ctx
+
+// must: an error in a step the check takes for granted (building or reading a segment it is about
+// to examine, a merge that has to succeed).  On the unchanged tree these never fail; when one does,
+// the code under test is the suspect, so it is reported as a violation with the error as evidence
+// rather than as a harness failure.
+func must(err error) {
+	if err == nil {
+		return
+	}
+	if curCtx != nil {
+		c := curCtx
+		curCtx = nil
+		c.Violation("a step the check takes for granted failed: "+err.Error()+"\n"+string(debug.Stack()), false)
+		code := c.Run.Finish()
+		zh.CleanTmp()
+		os.Exit(code)
+	}
+	fmt.Fprintln(os.Stderr, "harness error:", err)
+	zh.CleanTmp()
+	os.Exit(2)
+}
+
 func ask(c *ctx, req sx.V) sx.V {
 	a, err := c.M.Ask(req)
-	must(err)
+	mustH(err)
 	return a
 }
